@@ -33,9 +33,52 @@ def {NAME}(perm: int, {ARGS}) -> bool:
 '''
 
 
+OCOND = '''
+def {NAME}({ARGS}) -> bool:
+    """
+    pre: {PRE}
+    post: _
+    """
+    return H.program_violated({P}, {N}, [{STEPS}], [{DRAINS}], [{VALS}], uw, {OMAX}, {ALLOWC}, {EXC}) == 0
+'''
+
+OTWIN = '''
+def {NAME}({ARGS}) -> bool:
+    """
+    pre: {PRE}
+    post: _
+    """
+    # reachability twin: must be REFUTED (a valid program with a pool.call after an earlier task completed runs to the end)
+    return not H.program_reach({P}, {N}, [{STEPS}], [{DRAINS}], [{VALS}], uw, {OMAX}, {ALLOWC})
+'''
+
+
+def is_program(c):
+    return c[6].startswith('O')
+
+
+def _okw(c, twin):
+    """family O: c = ('online', True, P, n, a0, a0 + 1, 'O<k>' or 'O<k>c', omax, dmax, umax); a0 = fixed first step code,
+    or -1 (twin: first step symbolic too).  dmax -1 / -2: one symbolic drain mode for the whole schedule (none / quiescent [/ one tick]);
+    >= 0: one symbolic drain choice 0..dmax per step."""
+    mode, holder, P, n, a0, _, fam, omax, dmax, umax = c
+    k = int(fam[1:].rstrip('c'))
+    allowc = fam.endswith('c')
+    end = 4 + 4 * n
+    first = 0 if (a0 >= 0 and not twin) else -1
+    a = [f'a{j}' for j in range(1 if first == 0 else 0, k)]
+    v = [f'v{i}' for i in range(n)]
+    d = ['dm'] if dmax < 0 else [f'd{j}' for j in range(k)]
+    pre = [f'0 <= {x} <= {end}' for x in a] + [f'0 <= {x} <= {-dmax if dmax < 0 else dmax}' for x in d] + [f'0 <= uw <= {umax}']
+    steps = ([str(a0)] if first == 0 else []) + a
+    return dict(ARGS=', '.join(f'{x}: int' for x in a + d + v + ['uw']), PRE=' and '.join(pre), P=P, N=n,
+                STEPS=', '.join(steps), DRAINS=', '.join(['dm'] * k) if dmax < 0 else ', '.join(d), VALS=', '.join(v),
+                OMAX=omax, ALLOWC=allowc)
+
+
 def _tag(c):
     mode, holder, P, n, lo, hi, fam, omax, dmax, umax = c
-    return f'{mode}_{"h" if holder else "n"}_{P}_{n}_p{lo}_{hi}_{fam}o{omax}d{"q" if dmax < 0 else dmax}u{umax}'
+    return f'{mode}_{"h" if holder else "n"}_{P}_{n}_p{lo if lo >= 0 else "all"}_{hi}_{fam}o{omax}d{"q" if dmax < 0 else dmax}u{umax}'
 
 
 def cond_name(c, exc):
@@ -48,6 +91,10 @@ def twin_name(c):
 
 def argnames(c):
     mode, holder, P, n, lo, hi, fam, omax, dmax, umax = c
+    if is_program(c):
+        k = int(fam[1:].rstrip('c'))
+        return ([f'a{j}' for j in range(1, k)] + (['dm'] if dmax < 0 else [f'd{j}' for j in range(k)])
+                + [f'v{i}' for i in range(n)] + ['uw'])
     a = ['perm'] + [f'o{i}' for i in range(n)]
     if dmax >= 0:
         a += [f'd{i}' for i in range(n - 1)]
@@ -77,7 +124,13 @@ def source(conds, twins):
     """conds: list of (condition tuple, excused_mask); twins: list of condition tuples"""
     out = [HEAD]
     for c, exc in conds:
-        out.append(COND.format(NAME=cond_name(c, exc), EXC=exc, **_kw(c)))
+        if is_program(c):
+            out.append(OCOND.format(NAME=cond_name(c, exc), EXC=exc, **_okw(c, False)))
+        else:
+            out.append(COND.format(NAME=cond_name(c, exc), EXC=exc, **_kw(c)))
     for c in twins:
-        out.append(TWIN.format(NAME=twin_name(c), **_kw(c)))
+        if is_program(c):
+            out.append(OTWIN.format(NAME=twin_name(c), **_okw(c, True)))
+        else:
+            out.append(TWIN.format(NAME=twin_name(c), **_kw(c)))
     return '\n'.join(out)
